@@ -1386,6 +1386,24 @@ fn apply<S: AdjSut>(sut: &mut S, cx: &mut Ctx, op: &Op, kind: &'static str) -> R
         if let Err((c, d)) = check_obs(&cx.m, &obs, &plan) {
             fail!(c, "{}", d);
         }
+    } else {
+        // C06: the model only drives generation here; a model disagreement is C01/C02's
+        // business, so the run is abandoned (and counted) instead of reported
+        if check_obs(&cx.m, &obs, &plan).is_err() {
+            cx.acc.probe("visit_run_discarded_model_mismatch");
+            return Err(Exec { violation: None, nontrivial: false });
+        }
+        let big = cx.m.n_live() > 14;
+        if !big || cx.obs_rng.chance(1, 4) {
+            let seed = cx.cfg.obs_seed ^ (cx.step as u64);
+            match catch(|| sut.visit_check(seed)) {
+                Ok(Ok(())) => {}
+                Ok(Err((c, d))) => return Err(cx.fail("visit", c, d)),
+                Err(p) => return Err(cx.fail("visit", "panic", format!("a visit-trait call panicked after {}: {}", kind, p))),
+            }
+            cx.acc.probe_if(!cx.m.vacant_nodes().is_empty(), "visit_checked_state_with_node_vacancies");
+            cx.acc.probe_if(!cx.m.vacant_edges().is_empty(), "visit_checked_state_with_edge_vacancies");
+        }
     }
     cx.acc.state(cx.m.hash());
     Ok(())
